@@ -356,10 +356,10 @@ pub fn ref_excess_center(cx: f64, cy: f64, r: f64, x: f64, y: f64) -> f64 {
     let tp = 2.0 - ay;
     let xm = if x < 0.0 { x + 8.0 } else if x >= 8.0 { x - 8.0 } else { x };
     let cm = if cx < 0.0 { cx + 8.0 } else if cx >= 8.0 { cx - 8.0 } else { cx };
-    let mut qp = (xm / 2.0) as i64; if qp > 3 { qp = 3; }
+    let mut qp = (xm * 0.5) as i64; if qp > 3 { qp = 3; }
     let up = xm - (2 * qp + 1) as f64;
     let tc = 2.0 - acy;
-    let mut qc = (cm / 2.0) as i64; if qc > 3 { qc = 3; }
+    let mut qc = (cm * 0.5) as i64; if qc > 3 { qc = 3; }
     let uc = cm - (2 * qc + 1) as f64;
     // image of the cell centre in the frame of the point's facet: a quarter turn about the pole per facet step
     let k = (qc - qp) & 3;
